@@ -356,3 +356,78 @@ Proof.
   set (v := val x).
   repeat (rewrite mulm || rewrite mulm_r). rewrite !Z.mul_assoc. repeat (rewrite mulm || rewrite mulm_r). f_equal. ring.
 Qed.
+
+(* ================================================================ G. split_and_lookup *)
+Definition wbyte (w i : Z) : Z := (w / 256 ^ i) mod 256.
+
+Lemma split_and_lookup_unfold w :
+  split_and_lookup w =
+  lookup (wbyte w 0) + 256 * (lookup (wbyte w 1) + 256 * (lookup (wbyte w 2) + 256 * (lookup (wbyte w 3) + 256 *
+  (lookup (wbyte w 4) + 256 * (lookup (wbyte w 5) + 256 * (lookup (wbyte w 6) + 256 * (lookup (wbyte w 7) + 256 * 0))))))).
+Proof. reflexivity. Qed.
+
+Lemma wbyte_range w i : 0 <= wbyte w i < 256.
+Proof. unfold wbyte. apply Z.mod_pos_bound. lia. Qed.
+
+Lemma word_bytes w : 0 <= w < 2 ^ 64 ->
+  w = wbyte w 0 + 256 * (wbyte w 1 + 256 * (wbyte w 2 + 256 * (wbyte w 3 + 256 *
+      (wbyte w 4 + 256 * (wbyte w 5 + 256 * (wbyte w 6 + 256 * wbyte w 7)))))).
+Proof.
+  intros Hw. unfold wbyte.
+  change (256 ^ 0) with 1; change (256 ^ 1) with 256; change (256 ^ 2) with 65536; change (256 ^ 3) with 16777216;
+  change (256 ^ 4) with 4294967296; change (256 ^ 5) with 1099511627776; change (256 ^ 6) with 281474976710656;
+  change (256 ^ 7) with 72057594037927936; change (2 ^ 64) with 18446744073709551616 in Hw.
+  lia.
+Qed.
+
+Lemma canon_bytes_aux b0 b1 b2 b3 b4 b5 b6 b7 t0 t1 t2 t3 t4 t5 t6 t7 :
+  0 <= b0 < 256 -> 0 <= b1 < 256 -> 0 <= b2 < 256 -> 0 <= b3 < 256 ->
+  0 <= t0 < 256 -> 0 <= t1 < 256 -> 0 <= t2 < 256 -> 0 <= t3 < 256 ->
+  0 <= t4 < 256 -> 0 <= t5 < 256 -> 0 <= t6 < 256 -> 0 <= t7 < 256 ->
+  (t4 = 255 -> b4 = 255) -> (t5 = 255 -> b5 = 255) -> (t6 = 255 -> b6 = 255) -> (t7 = 255 -> b7 = 255) ->
+  (b0 = 0 -> t0 = 0) -> (b1 = 0 -> t1 = 0) -> (b2 = 0 -> t2 = 0) -> (b3 = 0 -> t3 = 0) ->
+  b0 + 256 * (b1 + 256 * (b2 + 256 * (b3 + 256 * (b4 + 256 * (b5 + 256 * (b6 + 256 * b7)))))) < 18446744069414584321 ->
+  0 <= t0 + 256 * (t1 + 256 * (t2 + 256 * (t3 + 256 * (t4 + 256 * (t5 + 256 * (t6 + 256 * (t7 + 256 * 0))))))) < 18446744069414584321.
+Proof.
+  intros R0 R1 R2 R3 T0 T1 T2 T3 T4 T5 T6 T7 H4 H5 H6 H7 Z0 Z1 Z2 Z3 Hw.
+  split; [clear - T0 T1 T2 T3 T4 T5 T6 T7; lia|].
+  (* suppose the image is >= p: its four high bytes are 0xff and its low half is non-zero *)
+  destruct (Z_lt_ge_dec (t0 + 256 * (t1 + 256 * (t2 + 256 * (t3 + 256 * (t4 + 256 * (t5 + 256 * (t6 + 256 * (t7 + 256 * 0)))))))) 18446744069414584321) as [Hlt|Hge]; [exact Hlt|exfalso].
+  assert (t7 = 255) by (clear - Hge T0 T1 T2 T3 T4 T5 T6 T7; lia).
+  assert (t6 = 255) by (clear - Hge T0 T1 T2 T3 T4 T5 T6 T7; lia).
+  assert (t5 = 255) by (clear - Hge T0 T1 T2 T3 T4 T5 T6 T7; lia).
+  assert (t4 = 255) by (clear - Hge T0 T1 T2 T3 T4 T5 T6 T7; lia).
+  assert (B7 : b7 = 255) by (apply H7; assumption). assert (B6 : b6 = 255) by (apply H6; assumption).
+  assert (B5 : b5 = 255) by (apply H5; assumption). assert (B4 : b4 = 255) by (apply H4; assumption).
+  subst t7 t6 t5 t4 b7 b6 b5 b4.
+  assert (Hlo : 1 <= t0 + 256 * (t1 + 256 * (t2 + 256 * t3))) by (clear - Hge T0 T1 T2 T3; lia).
+  assert (Hblo : b0 + 256 * (b1 + 256 * (b2 + 256 * b3)) = 0) by (clear - Hw R0 R1 R2 R3; lia).
+  assert (b0 = 0) by (clear - Hblo R0 R1 R2 R3; lia). assert (b1 = 0) by (clear - Hblo R0 R1 R2 R3; lia).
+  assert (b2 = 0) by (clear - Hblo R0 R1 R2 R3; lia). assert (b3 = 0) by (clear - Hblo R0 R1 R2 R3; lia).
+  rewrite (Z0 ltac:(assumption)), (Z1 ltac:(assumption)), (Z2 ltac:(assumption)), (Z3 ltac:(assumption)) in Hlo.
+  clear - Hlo. lia.
+Qed.
+
+(* the lookup S-box maps canonical words to canonical words: 0x00 and 0xff are fixed points and nothing else
+   maps to them, so "high half all ones and low half non-zero" is preserved in both directions *)
+Theorem split_and_lookup_canon w : canon w -> canon (split_and_lookup w).
+Proof.
+  intros Hw. unfold canon in *. rewrite P_lit in *.
+  assert (Hw64 : 0 <= w < 2 ^ 64) by (change (2 ^ 64) with 18446744073709551616; lia).
+  pose proof (word_bytes w Hw64) as E. rewrite split_and_lookup_unfold.
+  apply (canon_bytes_aux (wbyte w 0) (wbyte w 1) (wbyte w 2) (wbyte w 3) (wbyte w 4) (wbyte w 5) (wbyte w 6) (wbyte w 7));
+    try apply wbyte_range; try (apply lookup_facts; apply wbyte_range).
+  rewrite <- E. apply Hw.
+Qed.
+
+Theorem split_and_lookup_spec w : canon w ->
+  canon (split_and_lookup w) /\ val (split_and_lookup w) = spec_L (val w).
+Proof.
+  intros Hw. split; [apply split_and_lookup_canon; exact Hw|].
+  unfold spec_L. change (to_mont (val w)) with (mont (val w)). rewrite (mont_val w Hw).
+  cbv zeta. cbn [fold_right]. change from_mont with val. f_equal.
+  rewrite split_and_lookup_unfold.
+  change byte_of with wbyte.
+  rewrite <- !lookup_table_is_formula by apply wbyte_range.
+  ring.
+Qed.
